@@ -3,7 +3,7 @@
 
 use simkit::json::{f32_from_json, f32_to_json, Json};
 use simkit::rng::Rng;
-use simmodel::gen::{gen_anim_spec, gen_knobs, Knobs};
+use simmodel::gen::{gen_anim_spec, gen_knobs_with, Knobs};
 use simmodel::oracle;
 use simmodel::*;
 use std::time::Duration;
@@ -283,7 +283,7 @@ pub fn generate(rng: &mut Rng, property: &str, deep: bool) -> Scn {
     // One run in eight is a fault-free configuration (plain jittered frames + user events), so
     // that relaxed comparisons never hide an ordinary bug.
     let fault_free = rng.below(8) == 0;
-    let mut knobs = gen_knobs(rng, extreme);
+    let mut knobs = gen_knobs_with(rng, extreme, property != "C04");
     if property == "C06" && rng.chance(0.5) {
         knobs.grid = true;
     }
